@@ -781,6 +781,26 @@ func logConfig(cfg map[string]any) {
 
 func TestConcurrentUse(t *testing.T) {
 	bs := append(builders(), paramSetsBuilder())
+	// "pair": two independently drawn primitives (any two classes, or two keys of one class) are
+	// used at once, so that state shared between *different* keys or primitives - package-level
+	// caches, pooled buffers - is exercised with different contents in flight (after seeded
+	// changes C16c and C18d, both package-level state).
+	single := bs
+	bs = append(bs, builder{"pair", func(rt *rapid.T) (string, []op) {
+		b1 := rapid.SampledFrom(single).Draw(rt, "first")
+		d1, o1 := b1.build(rt)
+		cap1 := callCap
+		callCap = 0
+		b2 := rapid.SampledFrom(single).Draw(rt, "second")
+		d2, o2 := b2.build(rt)
+		if cap1 > 0 && (callCap == 0 || cap1 < callCap) {
+			callCap = cap1
+		}
+		for i := range o2 {
+			o2[i].name += "@2"
+		}
+		return b1.class + " {" + d1 + "} with " + b2.class + " {" + d2 + "}", append(o1, o2...)
+	}})
 	rapid.Check(t, func(rt *rapid.T) {
 		entropy := rapid.Uint64().Draw(rt, "entropy")
 		detrand.Seed(entropy)
